@@ -68,7 +68,8 @@ pub fn main(args: &[String]) {
     // all payloads of the whole program are known (also those appended before a restart)
     let mut known = Known { by_bytes: HashMap::new(), all: Vec::new() };
     for l in &lines[1..] {
-        let t: Vec<&str> = l.split_whitespace().collect();
+        let mut t: Vec<&str> = l.split_whitespace().collect();
+        if t.first().copied() == Some("B") { t.remove(0); }
         let descs = match t.first().copied() {
             Some("append") => vec![Desc::parse(t[2])],
             Some("batch") => parse_batch(t[2]),
@@ -91,24 +92,31 @@ pub fn main(args: &[String]) {
     // persister only writes at `persist`
     walrus_rust::wal::verif_hooks::capture_deletions(true);
     walrus_rust::wal::verif_hooks::hold_marker_persister(true);
-    let mut wal: Option<Walrus> = None;
+    // instance A lives in <datadir>, instance B (operations prefixed with `B`) in <datadir>_b: same process,
+    // different data directories (C13)
+    let datadir_a = datadir.clone();
+    let datadir_b = std::path::PathBuf::from(format!("{}_b", datadir.to_string_lossy()));
+    let mut wals: [Option<Walrus>; 2] = [None, None];
     let mut fault_armed = false;
     let mut idx = start;
     let mut code = 0;
     while idx < lines.len() {
         let line = lines[idx];
         idx += 1;
-        let t: Vec<&str> = line.split_whitespace().collect();
-        if t.is_empty() {
+        let t0: Vec<&str> = line.split_whitespace().collect();
+        if t0.is_empty() {
             continue;
         }
+        let (wi, t): (usize, Vec<&str>) = if t0[0] == "B" { (1, t0[1..].to_vec()) } else { (0, t0.clone()) };
+        let datadir = if wi == 1 { datadir_b.clone() } else { datadir_a.clone() };
         if t[0] == "restart" || t[0] == "kill" {
             if t[0] == "restart" {
                 // clean shutdown: drop the instance, then the process ends. The marker tracker is
                 // reference counted and the persister thread holds a temporary reference while it
                 // checks for work, so the final drop (which writes the markers) may run on that
                 // thread: give it a moment before the process image goes away.
-                wal = None;
+                wals[0] = None;
+                wals[1] = None;
                 std::thread::sleep(std::time::Duration::from_millis(20));
             }
             writeln!(out, "ok").unwrap();
@@ -141,7 +149,7 @@ pub fn main(args: &[String]) {
                     "ok".into()
                 }
                 "open" => {
-                    wal = None;
+                    wals[wi] = None;
                     match Walrus::builder()
                         .data_dir(datadir.clone())
                         .consistency(mode)
@@ -149,14 +157,14 @@ pub fn main(args: &[String]) {
                         .build()
                     {
                         Ok(w) => {
-                            wal = Some(w);
+                            wals[wi] = Some(w);
                             "ok".into()
                         }
                         Err(e) => errkind(&e),
                     }
                 }
                 "close" => {
-                    wal = None;
+                    wals[wi] = None;
                     "ok".into()
                 }
                 "persister" => {
@@ -167,7 +175,7 @@ pub fn main(args: &[String]) {
                 "persist" => {
                     // let the background persister make one full pass: two loop iterations must
                     // start after the release (the first may have passed the hold check already)
-                    if wal.is_some() {
+                    if wals[0].is_some() || wals[1].is_some() {
                         let t0 = walrus_rust::wal::verif_hooks::marker_persister_ticks();
                         walrus_rust::wal::verif_hooks::hold_marker_persister(false);
                         let started = std::time::Instant::now();
@@ -220,7 +228,7 @@ pub fn main(args: &[String]) {
                     }
                 }
                 _ => {
-                    let Some(w) = wal.as_ref() else { return "err:closed".into() };
+                    let Some(w) = wals[wi].as_ref() else { return "err:closed".into() };
                     match t[0] {
                         "append" => {
                             let d = Desc::parse(t[2]);
